@@ -197,6 +197,10 @@ func predMeta(m MetaCase, o *evid.Obs) error {
 		if len(base.Series) > 0 {
 			o.NonTrivial()
 		}
+		if base.EmptyDup || got.EmptyDup {
+			o.Discard("dontcare:series-differ-only-in-empty-labels")
+			return nil
+		}
 		if len(base.Dup) > 0 || len(got.Dup) > 0 {
 			d := append(append([]string{}, base.Dup...), got.Dup...)
 			return fmt.Errorf("label set %s came back as more than one output series\nquery: %s\nSQL: %s", d[0], text, out.SQL())
@@ -212,5 +216,5 @@ func predMeta(m MetaCase, o *evid.Obs) error {
 }
 
 func addMeta(r *evid.Run) {
-	evid.Add(r, evid.Prop[MetaCase]{Name: "meta", Quick: 1500, Thorough: 6000, Gen: genMeta, Pred: predMeta})
+	evid.Add(r, evid.Prop[MetaCase]{Name: "meta", Quick: 1500, Thorough: 12000, Gen: genMeta, Pred: predMeta})
 }
